@@ -660,6 +660,62 @@ static void sync_parity_writer(struct snapraid_worker* worker, struct snapraid_t
 	task->state = TASK_STATE_DONE;
 }
 
+/**
+ * Mark as bad the blocks for which a parity write failed.
+ *
+ * When the write is really done, the blocks are already marked as synced,
+ * but their parity is not the expected one.
+ */
+static void sync_writer_error_mark(struct snapraid_state* state, struct snapraid_io* io)
+{
+	block_off_t position_map[64];
+	unsigned count;
+	unsigned i;
+
+	while ((count = io_writer_error_position(io, position_map, 64)) != 0) {
+
+		for (i = 0; i < count; ++i) {
+			snapraid_info info = info_get(&state->infoarr, position_map[i]);
+
+			/* set the error status keeping the other info */
+			info_set(&state->infoarr, position_map[i], info_set_bad(info));
+		}
+
+		/* the state is changed */
+		state->need_write = 1;
+	}
+}
+
+/**
+ * Stop the io, waiting for the pending parity writes, and get their errors.
+ *
+ * The errors of the latest writes are known only at this point.
+ */
+static void sync_writer_stop(struct snapraid_state* state, struct snapraid_io* io, unsigned* error, unsigned* io_error)
+{
+	unsigned j;
+
+	/* stop all the worker threads */
+	io_stop(io);
+
+	/* get the errors not yet reported by io_write_next() */
+	for (j = 0; j < IO_WRITER_ERROR_MAX; ++j) {
+		switch (j + IO_WRITER_ERROR_BASE) {
+		case TASK_STATE_IOERROR_CONTINUE :
+		case TASK_STATE_IOERROR :
+			*io_error += io->writer_error[j];
+			break;
+		default :
+			*error += io->writer_error[j];
+			break;
+		}
+		io->writer_error[j] = 0;
+	}
+
+	/* mark as bad the blocks with a failed write */
+	sync_writer_error_mark(state, io);
+}
+
 static int state_sync_process(struct snapraid_state* state, struct snapraid_parity_handle* parity_handle, block_off_t blockstart, block_off_t blockmax)
 {
 	struct snapraid_io io;
@@ -669,6 +725,7 @@ static int state_sync_process(struct snapraid_state* state, struct snapraid_pari
 	struct snapraid_rehash* rehandle;
 	void* pasthandle_alloc;
 	struct snapraid_rehash* pasthandle;
+	int io_is_stopped;
 	unsigned diskmax;
 	block_off_t blockcur;
 	unsigned j;
@@ -705,6 +762,9 @@ static int state_sync_process(struct snapraid_state* state, struct snapraid_pari
 
 	/* maps the disks to handles */
 	handle = handle_mapping(state, &diskmax);
+
+	/* the io is not yet stopped */
+	io_is_stopped = 0;
 
 	/* rehash buffers */
 	rehandle = malloc_nofail_align(diskmax * sizeof(struct snapraid_rehash), &rehandle_alloc);
@@ -1273,6 +1333,9 @@ static int state_sync_process(struct snapraid_state* state, struct snapraid_pari
 		/* write finished */
 		io_write_next(&io, blockcur, !parity_going_to_be_updated, writer_error);
 
+		/* mark as bad the blocks with a failed write */
+		sync_writer_error_mark(state, &io);
+
 		/* handle errors reported */
 		for (j = 0; j < IO_WRITER_ERROR_MAX; ++j) {
 			if (writer_error[j]) {
@@ -1360,6 +1423,11 @@ static int state_sync_process(struct snapraid_state* state, struct snapraid_pari
 	}
 
 end:
+	/* stop all the worker threads, waiting for the pending parity writes, */
+	/* to know all the write errors before reporting them and saving the state */
+	sync_writer_stop(state, &io, &error, &io_error);
+	io_is_stopped = 1;
+
 	state_progress_end(state, countpos, countmax, countsize);
 
 	state_usage_print(state);
@@ -1413,7 +1481,8 @@ end:
 
 bail:
 	/* stop all the worker threads */
-	io_stop(&io);
+	if (!io_is_stopped)
+		sync_writer_stop(state, &io, &error, &io_error);
 
 	for (j = 0; j < diskmax; ++j) {
 		struct snapraid_file* file = handle[j].file;
